@@ -23,6 +23,16 @@ class PageListener(interpose.Listener):
         if rows and sql.strip().upper().startswith('PRAGMA PAGE_COUNT'):
             self.pages.append(rows[0][0] * self.page_size)
 
+    # a transient "database is locked" at the n-th statement from now (another process held the lock for a moment)
+    busy_at = 0
+
+    def sql_before(self, conn, sql, params):
+        if self.busy_at > 0:
+            self.busy_at -= 1
+            if self.busy_at == 0:
+                import sqlite3
+                raise sqlite3.OperationalError('database is locked')
+
 
 class StreamError(Exception):
     pass
@@ -291,7 +301,11 @@ class SeqRunner:
                                       size_limit=s['limit'], statistics=s['stats'],
                                       disk_min_file_size=s.get('min_file_size', 2 ** 15))
             else:
-                self.cache = dc.Cache(self.dir, timeout=1)       # settings must come back from the directory
+                self.listener.busy_at = a.get('busy', 0)         # opened while the database is busy for a moment
+                try:
+                    self.cache = dc.Cache(self.dir, timeout=1)   # settings must come back from the directory
+                finally:
+                    self.listener.busy_at = 0
             return R('none')
         if name == 'pickle':
             self.cache = _p.loads(_p.dumps(self.cache))
